@@ -266,6 +266,23 @@ def search(ctx):
                   "the order of __subclasses__() is altered (%s)" % astq.text(par))
     ext = [c for c in astq.func_calls(f) if astq.attr_call(c, "extend")]
     app = [c for c in astq.func_calls(f) if astq.attr_call(c, "append") and c.args and isinstance(c.args[0], ast.Name)]
+    if ext and not app:
+        # single-visit traversal: a class is tested when it is popped, its subclasses are pushed afterwards (or before) - either
+        # way an ancestor is tested before its descendants
+        tested_on_pop = []
+        for r in rets:
+            v = r.value
+            if isinstance(v, ast.Call) and isinstance(v.func, ast.Name):
+                popped = [n for n in f.body_nodes() if isinstance(n, ast.Assign) and any(astq.is_name(t, v.func.id) for t in n.targets)
+                          and isinstance(n.value, ast.Call) and astq.attr_call(n.value, "pop")]
+                if popped:
+                    tested_on_pop.append(r)
+        if tested_on_pop:
+            ctx.bad(R, f, tested_on_pop[0], "every class is visited once and tested for the alias as soon as it is popped, before its subclasses are: an ancestor "
+                    "that declares (or a subclass that inherits) the alias is instantiated instead of the later-registered descendant, so "
+                    "'the class registered last wins' fails whenever the later class derives from the earlier one",
+                    "descendants are tried before their ancestors")
+            return
     ctx.need(ext and app, R, "search idiom not recognised (no stack.append(parent) / stack.extend(children))")
     stack_name = astq.base_name(pops[0].func.value)
     e0 = [c for c in ext if astq.base_name(c.func.value) == stack_name]
